@@ -1,9 +1,12 @@
 package storeops
 
 import (
+	"fmt"
 	"strconv"
 	"strings"
 	"time"
+
+	"github.com/redis/go-redis/v9"
 
 	"github.com/sergeii/swat4master/verifharness/internal/sched"
 	"github.com/sergeii/swat4master/verifharness/internal/world"
@@ -11,10 +14,11 @@ import (
 
 // SchedResult is what a scheduled run produced.
 type SchedResult struct {
-	Trace   []string // "<client>:<kind>:<reply>" in execution order
-	Results []string // per client: its rendered result, "crashed" or "hung"
-	Dump    []string // canonical keyspace after every live client finished
-	Hung    bool
+	Trace     []string // "<client>:<kind>:<reply>" in execution order (plus call/ret markers when wrapped)
+	Results   []string // per client: its rendered result, "crashed" or "hung"
+	Dump      []string // canonical keyspace after every live client finished
+	Effective []string // call-granularity events as they actually happened (wrapped runs only), see below
+	Hung      bool
 }
 
 // RunScheduled runs the clients (each on its own logical process of w) under the event list.
@@ -27,18 +31,107 @@ type SchedResult struct {
 // Events naming a finished or crashed client are skipped.  When the list is exhausted the live clients
 // are completed round-robin (one command each in turn).
 func RunScheduled(w *world.World, clients []func(p *world.Proc) string, events []string) SchedResult {
+	return RunScheduledWrap(w, clients, events, nil)
+}
+
+// RunScheduledWrap: like RunScheduled; wrap (optional) decorates the repositories of client i's process
+// so that repository-call boundaries appear in the trace as "<i>:call:<name>" / "<i>:ret:<name>".
+// Additional call-granularity events (wrapped runs):
+//
+//	c<i>          client i runs until its current/next repository call has returned
+//	xb<i>:<k>     client i dies before the k-th storage command (k = 0, 1, …) of its next repository call
+//	xa<i>:<k>     … after that command took effect (reply lost)
+//	yb<i>:<k>     the k-th storage command of client i's next repository call fails without effect
+//	ya<i>:<k>     … fails after taking effect
+//
+// If the call has fewer than k+1 commands the event degrades to c<i>.  Completion is round-robin, one
+// repository call per turn.  Effective lists what happened at call granularity, in order:
+// "c<i>", "crash<i>:<0|1>" (1 = the call's MULTI/EXEC had been executed), "fault<i>:<0|1>" (the call
+// returned an error because of the injected fault), "t<ns>", "e".
+func RunScheduledWrap(w *world.World, clients []func(p *world.Proc) string, events []string,
+	wrap func(sc *sched.Sched, id int, r world.Repos) world.Repos) SchedResult {
 	sc := sched.New()
 	procs := make([]*world.Proc, len(clients))
 	results := make([]string, len(clients))
 	for i := range clients {
-		_, hook := sc.AddProc()
-		procs[i] = w.NewProc(hook)
+		id, hook := sc.AddProc()
+		po := world.ProcOpts{Hooks: []redis.Hook{hook}}
+		if wrap != nil {
+			po.Wrap = func(r world.Repos) world.Repos { return wrap(sc, id, r) }
+		}
+		procs[i] = w.NewProcOpts(po)
 	}
 	for i := range clients {
 		i := i
 		sc.Go(i, func() { results[i] = clients[i](procs[i]) })
 	}
 	sc.Settle()
+	var eff []string
+
+	// callStep runs client i to the end of its current/next repository call; returns false if not live.
+	callStep := func(i int) bool {
+		if !sc.Live(i) {
+			return false
+		}
+		before := sc.CountMarks(i, "ret:")
+		progressed := false
+		for sc.Step(i, sched.Run) {
+			progressed = true
+			if sc.CountMarks(i, "ret:") > before || sc.Hung {
+				break
+			}
+		}
+		return progressed
+	}
+	// execSince: did client i execute a MULTI/EXEC successfully since trace position from?
+	execSince := func(i, from int) bool {
+		for _, t := range sc.Trace[from:] {
+			if strings.HasPrefix(t, fmt.Sprintf("%d:exec:ok", i)) || strings.HasPrefix(t, fmt.Sprintf("%d:exec:fault-after", i)) {
+				return true
+			}
+		}
+		return false
+	}
+	inCall := func(i int, k int, act sched.Action) {
+		if !sc.Live(i) {
+			return
+		}
+		from := len(sc.Trace)
+		before := sc.CountMarks(i, "ret:")
+		for n := 0; n < k; n++ {
+			if !sc.Step(i, sched.Run) || sc.CountMarks(i, "ret:") > before {
+				break
+			}
+		}
+		if !sc.Live(i) || sc.CountMarks(i, "ret:") > before {
+			eff = append(eff, fmt.Sprintf("c%d", i)) // the call was shorter: completed normally
+			return
+		}
+		sc.Step(i, act)
+		switch act {
+		case sched.CrashBefore, sched.CrashAfter:
+			eff = append(eff, fmt.Sprintf("crash%d:%d", i, b2i(execSince(i, from))))
+		default:
+			// let the call return; it failed iff its ret marker says so
+			for sc.Live(i) && sc.CountMarks(i, "ret:") == before {
+				if !sc.Step(i, sched.Run) {
+					break
+				}
+			}
+			failed := false
+			for _, t := range sc.Trace[from:] {
+				if strings.HasPrefix(t, fmt.Sprintf("%d:ret:", i)) && strings.HasSuffix(t, ":err") {
+					failed = true
+				}
+			}
+			if failed {
+				eff = append(eff, fmt.Sprintf("fault%d:%d", i, b2i(execSince(i, from))))
+			} else {
+				eff = append(eff, fmt.Sprintf("c%d", i))
+			}
+		}
+	}
+
 	for _, ev := range events {
 		if ev == "" || ev == "-" {
 			continue
@@ -46,9 +139,37 @@ func RunScheduled(w *world.World, clients []func(p *world.Proc) string, events [
 		switch {
 		case ev == "e":
 			w.ExpireLeases(time.Second)
+			eff = append(eff, "e")
 		case ev[0] == 't':
 			ns, _ := strconv.ParseInt(ev[1:], 10, 64)
 			w.Advance(time.Duration(ns))
+			eff = append(eff, ev)
+		case ev[0] == 'c' && len(ev) > 1 && ev[1] >= '0' && ev[1] <= '9':
+			i, err := strconv.Atoi(ev[1:])
+			if err == nil && callStep(i) {
+				eff = append(eff, fmt.Sprintf("c%d", i))
+			}
+		case ev[0] == 'x' || ev[0] == 'y':
+			body, ks, ok := strings.Cut(ev[2:], ":")
+			i, err1 := strconv.Atoi(body)
+			k, err2 := strconv.Atoi(ks)
+			if !ok || err1 != nil || err2 != nil || len(ev) < 3 {
+				continue
+			}
+			var act sched.Action
+			switch ev[:2] {
+			case "xb":
+				act = sched.CrashBefore
+			case "xa":
+				act = sched.CrashAfter
+			case "yb":
+				act = sched.FaultBefore
+			case "ya":
+				act = sched.FaultAfter
+			default:
+				continue
+			}
+			inCall(i, k, act)
 		default:
 			var act sched.Action
 			var num string
@@ -79,8 +200,15 @@ func RunScheduled(w *world.World, clients []func(p *world.Proc) string, events [
 	for !sc.Hung {
 		progressed := false
 		for i := range clients {
-			if sc.Step(i, sched.Run) {
+			if wrap == nil {
+				if sc.Step(i, sched.Run) {
+					progressed = true
+				}
+				continue
+			}
+			if callStep(i) {
 				progressed = true
+				eff = append(eff, fmt.Sprintf("c%d", i))
 			}
 		}
 		if !progressed {
@@ -95,7 +223,14 @@ func RunScheduled(w *world.World, clients []func(p *world.Proc) string, events [
 			results[i] = "hung"
 		}
 	}
-	res := SchedResult{Trace: append([]string{}, sc.Trace...), Results: results, Dump: w.Dump(), Hung: sc.Hung}
+	res := SchedResult{Trace: append([]string{}, sc.Trace...), Results: results, Dump: w.Dump(), Effective: eff, Hung: sc.Hung}
 	sc.Finish()
 	return res
+}
+
+func b2i(b bool) int {
+	if b {
+		return 1
+	}
+	return 0
 }
